@@ -5,6 +5,7 @@ package main
 
 import (
 	"fmt"
+	"math/big"
 	"sort"
 	"strconv"
 	"strings"
@@ -111,12 +112,13 @@ access(all) contract C05 {
 type val struct {
 	t    *ty
 	n    int64
+	h    *big.Int // Int leaf too large for int64 (non-inlinable scalars: 2^600 .. 2^7000); overrides n
 	kids []*val  // array elements / struct fields / dictionary values (aligned with keys)
 	keys []int64 // dictionary keys, ascending
 }
 
 func (v *val) clone() *val {
-	c := &val{t: v.t, n: v.n, keys: append([]int64{}, v.keys...)}
+	c := &val{t: v.t, n: v.n, h: v.h, keys: append([]int64{}, v.keys...)}
 	for _, k := range v.kids {
 		c.kids = append(c.kids, k.clone())
 	}
@@ -126,6 +128,9 @@ func (v *val) clone() *val {
 func (v *val) cad() string {
 	switch v.t.k {
 	case "int":
+		if v.h != nil {
+			return v.h.String()
+		}
 		return strconv.FormatInt(v.n, 10)
 	case "arr":
 		parts := make([]string, len(v.kids))
@@ -157,15 +162,22 @@ func zc(n int64) string {
 	return strconv.FormatInt(n, 10)
 }
 
+func (v *val) zcoq() string {
+	if v.h != nil {
+		return lib.Z(v.h) // limbs: Coq is slow on huge decimal literals
+	}
+	return zc(v.n)
+}
+
 func (v *val) coq() string {
 	switch v.t.k {
 	case "int":
-		return "TPrim " + zc(v.n)
+		return "TPrim " + v.zcoq()
 	case "arr":
 		if v.t.elem.k == "int" {
 			parts := make([]string, len(v.kids))
 			for i, k := range v.kids {
-				parts[i] = zc(k.n)
+				parts[i] = k.zcoq()
 			}
 			return "ints [" + strings.Join(parts, "; ") + "]"
 		}
@@ -234,8 +246,11 @@ func fromLog(t *ty, n *lib.LogNode) (*val, error) {
 	bad := func() (*val, error) { return nil, fmt.Errorf("logged value does not have type %s", t.cad()) }
 	switch t.k {
 	case "int":
-		if n.Tag != 'i' || !n.Int.IsInt64() {
+		if n.Tag != 'i' {
 			return bad()
+		}
+		if !n.Int.IsInt64() {
+			return &val{t: t, h: n.Int}, nil
 		}
 		return &val{t: t, n: n.Int.Int64()}, nil
 	case "arr":
